@@ -671,10 +671,13 @@ class MetricsUnit(Unit):
                 yield [tag, True, [a, 500, 500], "float"]
 
     def check(self, case, rec):
-        tag, hdr, adv, kind = case
+        tag, hdr, adv, kind = case[:4]
         n = len(adv)
         font = _mtx_font(tag, hdr, n)
         names = font.getGlyphOrder()
+        if kind == "one":  # replay form: one (advances, side bearings) pair
+            rec.nontrivial_n(1)
+            return self.one(tag, hdr, font, names, list(adv), list(case[4]), rec)
         if kind == "float":
             sbs = [(b, 0, c) for b in MTX_FLOATS[:-1] + (-1.5, -32767.5) for c in (0, 7.5)]
             sbs += [(0, a2, 0) for a2 in MTX_FLOATS]  # second pass: float in the advance of glyph 1
@@ -1554,5 +1557,1739 @@ class LocaUnit(Unit):
             rec.violation("glyf-loca:harfbuzz:" + cls, "HarfBuzz cannot draw the last glyph: %s" % msg)
 
 
+# =============================================================================================
+# name
+# =============================================================================================
+from fontTools.ttLib.tables._n_a_m_e import makeName
+
+# (platformID, encodingID, languageID) -> codec, written from the OpenType 'name' chapter and the
+# Apple script/language codes; the *_cjk mac scripts are compared through their base codec only
+# for characters outside the Apple-specific single-byte extensions.
+NAME_TRIPLES = (
+    [((0, e, 0), "utf-16-be") for e in range(7)]
+    + [((1, 0, 0), "mac_roman"), ((1, 0, 12), "mac_roman"), ((1, 0, 15), "mac_iceland"), ((1, 0, 17), "mac_turkish"), ((1, 0, 18), "mac_croatian"),
+       ((1, 0, 24), "mac_latin2"), ((1, 0, 36), "mac_latin2"), ((1, 0, 37), "mac_romanian"), ((1, 0, 40), "mac_latin2"), ((1, 0, 41), "mac_roman"),
+       ((1, 1, 11), "shift_jis"), ((1, 2, 19), "big5"), ((1, 3, 23), "euc_kr"), ((1, 6, 14), "mac_greek"), ((1, 7, 32), "mac_cyrillic"),
+       ((1, 25, 33), "gb2312"), ((1, 29, 38), "mac_latin2"), ((1, 35, 17), "mac_turkish"), ((1, 37, 15), "mac_iceland")]
+    + [((2, 0, 0), "ascii"), ((2, 1, 0), "utf-16-be"), ((2, 2, 0), "latin-1")]
+    + [((3, 0, 0x409), "utf-16-be"), ((3, 1, 0x409), "utf-16-be"), ((3, 1, 0x411), "utf-16-be"), ((3, 10, 0x409), "utf-16-be"),
+       ((3, 2, 0x411), "shift_jis"), ((3, 3, 0x804), "gb2312"), ((3, 4, 0x404), "big5"), ((3, 5, 0x412), "euc_kr"), ((3, 6, 0x412), "johab")]
+)
+NAME_STRINGS = ("", "Abc", "A b-c_1", "Àé", "ÿ", "Ωα", "Жя", "日本", "한", "Šž", "şğ",
+                "\U0001F600", "A\U0001D538b", "€")
+NAME_POOL = [
+    ("Abc", 1, (3, 1, 0x409)), ("Abc", 2, (3, 1, 0x409)), ("Abd", 1, (3, 1, 0x407)), ("Abc", 1, (1, 0, 0)), ("Àé", 4, (1, 0, 0)),
+    ("Àé", 4, (3, 1, 0x409)), ("", 3, (3, 1, 0x409)), ("\U0001F600", 5, (3, 10, 0x409)), ("日本", 1, (3, 2, 0x411)),
+    ("日本", 1, (1, 1, 11)), ("Abc", 256, (0, 3, 0)), ("Abc", 1, (0, 4, 0)), ("bc", 6, (3, 1, 0x409)), ("Abc", 65535, (3, 1, 0xFFFF)),
+]
+
+
+class _NameCodecs(dict):
+    """triple -> reference codec; languages other than the listed Mac overrides do not matter"""
+
+    def __init__(self):
+        dict.__init__(self, NAME_TRIPLES)
+        self.by_pe = {}
+        for (p_, e_, _l), c in NAME_TRIPLES:
+            if (p_, e_) != (1, 0):
+                self.by_pe[(p_, e_)] = c
+
+    def __missing__(self, tr):
+        return self.by_pe[tr[:2]]
+
+
+class NameUnit(Unit):
+    name = "name"
+    rule = ("name tables: (single) every (platform, encoding, language) of the library's encoding map (45 triples incl. all Mac "
+            "language overrides and CJK code pages) x strings {empty, ASCII, Latin-1, Greek, Cyrillic, CJK, Hangul, Latin-2, Turkish, "
+            "astral, mixed, euro}; (pairs/triples) every ordered pair and every 3-subset (both orders) of a 14-record pool with "
+            "shared strings, equal ids on different platforms, nameID 65535; oracle: decompiled records' toUnicode() == input per "
+            "key, struct reader finds the records sorted by (platform, encoding, language, nameID) with bytes that decode to the "
+            "string under Python's own codec for that triple; strings the codec cannot encode must raise UnicodeEncodeError "
+            "(outside domain); distinct = each record list")
+    required_witnesses = ("utf-16 astral (surrogate pair)", "single-byte mac codec", "double-byte codec", "empty string", "unencodable (outside domain)",
+                          "records re-sorted", "shared string storage", "latin-1")
+    chunk = 40
+
+    def cases(self, tier, seed):
+        for ti in range(len(NAME_TRIPLES)):
+            for si in range(len(NAME_STRINGS)):
+                yield ["single", ti, si]
+        n = len(NAME_POOL)
+        for a in range(n):
+            for b in range(n):
+                if a != b:
+                    yield ["pool", [a, b]]
+        for c in itertools.combinations(range(n), 3):
+            yield ["pool", list(c)]
+            yield ["pool", list(reversed(c))]
+
+    def check(self, case, rec):
+        if case[0] == "single":
+            triple, codec = NAME_TRIPLES[case[1]]
+            recs = [(NAME_STRINGS[case[2]], 1, triple)]
+        else:
+            recs = [NAME_POOL[i] for i in case[1]]
+        codec_of = _NameCodecs()
+        rec.nontrivial()
+        table = newTable("name")
+        table.names = [makeName(s_, nid, *tr) for s_, nid, tr in recs]
+        exp = {}
+        for s_, nid, tr in recs:
+            exp[tr + (nid,)] = s_
+        # what the reference codec says
+        refbytes = {}
+        unenc = False
+        for s_, nid, tr in recs:
+            try:
+                refbytes[tr + (nid,)] = s_.encode(codec_of[tr])
+            except UnicodeEncodeError:
+                unenc = True
+        cls = "+".join(sorted({codec_of[tr] for _s, _n, tr in recs}))
+        try:
+            data = table.compile(None)
+        except UnicodeEncodeError:
+            if unenc:
+                rec.witness("unencodable (outside domain)")
+                rec.count("outside-domain:unencodable string")
+                return
+            rec.violation("name:compile-raises:UnicodeEncodeError:" + cls, "compile raised UnicodeEncodeError although %r encodes in %s" % (recs, cls))
+            return
+        t2 = newTable("name")
+        t2.decompile(data, None)
+        got = {}
+        for r_ in t2.names:
+            key = (r_.platformID, r_.platEncID, r_.langID, r_.nameID)
+            try:
+                got[key] = r_.toUnicode()
+            except UnicodeDecodeError as e:
+                got[key] = "<undecodable: %s>" % e
+        if got != exp or len(t2.names) != len(recs):
+            rec.violation("name:decompile:" + cls, "decompiled strings %r, expected %r" % (got, exp))
+        try:
+            _f, rr = R.name(data)
+        except R.ReadError as e:
+            rec.violation("name:reader:" + cls, "independent reader: %s" % e)
+            return
+        keys = [r_[:4] for r_ in rr]
+        if keys != sorted(keys):
+            rec.violation("name:records-unsorted", "name records not sorted: %r" % (keys,))
+        if keys != [tr + (nid,) for _s, nid, tr in recs]:
+            rec.witness("records re-sorted")
+        if sorted(keys) != sorted(exp):
+            rec.violation("name:reader:keys:" + cls, "record keys %r, expected %r" % (keys, sorted(exp)))
+            return
+        for pid, eid, lid, nid, raw in rr:
+            key = (pid, eid, lid, nid)
+            if key in refbytes:
+                if raw != refbytes[key]:
+                    rec.violation("name:reader:bytes:" + codec_of[key[:3]], "stored bytes %s, the %s codec gives %s for %r" % (raw.hex(), codec_of[key[:3]], refbytes[key].hex(), exp[key]))
+            else:
+                rec.count("encoded only by the library's extended codec")
+            c = codec_of[key[:3]]
+            if c == "utf-16-be" and any(ord(ch) > 0xFFFF for ch in exp[key]):
+                rec.witness("utf-16 astral (surrogate pair)")
+            if c.startswith("mac_") and exp[key]:
+                rec.witness("single-byte mac codec")
+            if c in ("shift_jis", "big5", "euc_kr", "gb2312", "johab") and any(ord(ch) > 0x7F for ch in exp[key]):
+                rec.witness("double-byte codec")
+            if c == "latin-1" and exp[key]:
+                rec.witness("latin-1")
+            if exp[key] == "":
+                rec.witness("empty string")
+        if len(recs) > 1:
+            so = 6 + 12 * len(rr)
+            spans = [struct.unpack_from(">HH", data, 6 + 12 * i + 8) for i in range(len(rr))]
+            if len(set(spans)) < len(spans) and len(data) - so < sum(ln for ln, _o in spans):
+                rec.witness("shared string storage")
+
+
+# =============================================================================================
+# kern (format 0)
+# =============================================================================================
+from fontTools.ttLib.tables._k_e_r_n import KernTable_format_0
+
+KERN_UNIVERSE = [(1, 2), (2, 1), (1, 1), (3, 1), (0, 2), (2, 3)]
+KERN_VALUES = (-32768, -1, 0, 1, 32767, -40)
+
+
+def _kern_font(n):
+    key = ("kernfont", n)
+    f = _FIX.get(key)
+    if f is None:
+        f = TTFont()
+        f.setGlyphOrder([gname(i) for i in range(n)])
+        f.getReverseGlyphMap()
+        _FIX[key] = f
+    return f
+
+
+def _kern_sub(pairs, apple, coverage=1, tuple_index=0):
+    st = KernTable_format_0(apple)
+    st.coverage = coverage
+    st.tupleIndex = tuple_index if apple else None
+    st.kernTable = {(gname(l), gname(r)): v for (l, r), v in pairs.items()}
+    return st
+
+
+class KernUnit(Unit):
+    name = "kern"
+    rule = ("kern format 0: every subset of a 6-pair universe over glyphs {0..3} x 6 value assignments rotating through "
+            "{-32768,-1,0,1,32767,-40}, in Microsoft (version 0) and Apple (version 1.0, tupleIndex) headers, one and two subtables, "
+            "coverage bytes {1,3,0x81 (apple 0x80)}; large families nPairs in {10919..10922} (uint16 length overflow at 10921) and "
+            "{16383,16384,16385} (searchRange overflow), thorough: 65535; oracle: decompiled pair dict == input, struct reader sees "
+            "the same pairs sorted by (left,right) with the spec's searchRange/entrySelector/rangeShift (mod 2^16), HarfBuzz applies "
+            "the pair value when shaping; distinct = each kern table")
+    required_witnesses = ("empty pair set", "value -32768", "value 32767", "two subtables", "apple header", "length field overflow (> 10920 pairs)",
+                          "searchRange overflow (>= 16384 pairs)", "pairs re-sorted")
+    chunk = 24
+
+    def setup(self, tier, seed):
+        _kern_font(8)
+        _kern_font(300)
+        base_tables()
+
+    def cases(self, tier, seed):
+        for bits in range(64):
+            for rot in range(6):
+                if bits == 0 and rot:
+                    continue
+                yield ["set", bits, rot, 0]
+        for bits in (0, 1, 5, 63):
+            for rot in (0, 3):
+                yield ["set", bits, rot, 1]  # apple
+        for a in (0, 1, 21, 63):
+            for b in (0, 6, 63):
+                for apple in (0, 1):
+                    yield ["two", a, b, apple]
+        for cov in (3, 0x81, 0x80):
+            yield ["cov", 21, cov, 1 if cov == 0x80 else 0]
+        bigs = [10919, 10920, 10921, 10922, 16383, 16384, 16385]
+        if tier != "quick":
+            bigs.append(65535)
+        for n in bigs:
+            yield ["big", n, 0, 0]
+        yield ["big", 10921, 0, 1]
+
+    def pairs_of(self, bits, rot):
+        out = {}
+        k = 0
+        for i, pr in enumerate(KERN_UNIVERSE):
+            if bits >> i & 1:
+                out[pr] = KERN_VALUES[(k + rot) % 6]
+                k += 1
+        # insertion order deliberately not sorted
+        return dict(reversed(list(out.items())))
+
+    def check(self, case, rec):
+        kind = case[0]
+        apple = bool(case[3])
+        nglyphs = 8
+        if kind == "set":
+            subs = [self.pairs_of(case[1], case[2])]
+            covs = [1]
+        elif kind == "two":
+            subs = [self.pairs_of(case[1], 0), self.pairs_of(case[2], 2)]
+            covs = [1, 1]
+        elif kind == "cov":
+            subs = [self.pairs_of(case[1], 1)]
+            covs = [case[2]]
+        else:
+            n = case[1]
+            nglyphs = 300
+            subs = [{(1 + i // 256, i % 256): ((i * 37) % 2001) - 1000 for i in range(n)}]
+            covs = [1]
+        font = _kern_font(nglyphs)
+        rec.nontrivial()
+        table = newTable("kern")
+        table.version = 1.0 if apple else 0
+        table.kernTables = [_kern_sub(pr, apple, c, tuple_index=i) for i, (pr, c) in enumerate(zip(subs, covs))]
+        cls = "%s:%s" % ("apple" if apple else "ms", kind if kind != "big" else "big%d" % case[1])
+        data = table.compile(font)
+        t2 = newTable("kern")
+        t2.decompile(data, font)
+        if t2.version != table.version or len(t2.kernTables) != len(subs):
+            rec.violation("kern:decompile:header:" + cls, "version %r, %d subtables" % (t2.version, len(t2.kernTables)))
+        for i, (pr, c) in enumerate(zip(subs, covs)):
+            if i >= len(t2.kernTables):
+                break
+            st = t2.kernTables[i]
+            want = {(gname(l), gname(r)): v for (l, r), v in pr.items()}
+            if getattr(st, "kernTable", None) != want or st.coverage != c or (apple and st.tupleIndex != i):
+                got = getattr(st, "kernTable", {})
+                rec.violation("kern:decompile:" + cls, "subtable %d: %s; coverage %r tupleIndex %r" % (i, dict_diff(want, got), st.coverage, getattr(st, "tupleIndex", None)))
+        try:
+            ver, rsubs = R.kern(data)
+        except R.ReadError as e:
+            rec.violation("kern:reader:" + cls, "independent reader: %s" % e)
+            return
+        if ver != (1 if apple else 0) or len(rsubs) != len(subs):
+            rec.violation("kern:reader:header:" + cls, "version %r, %d subtables" % (ver, len(rsubs)))
+            return
+        for i, (pr, c, rs) in enumerate(zip(subs, covs, rsubs)):
+            want = sorted((l, r, v) for (l, r), v in pr.items())
+            if rs["format"] != 0 or rs["coverage"] != c or rs.get("pairs") != want:
+                rec.violation("kern:reader:" + cls, "subtable %d: format %r coverage %r, %d pairs (expected %d), first %r" % (
+                    i, rs["format"], rs["coverage"], len(rs.get("pairs", ())), len(want), rs.get("pairs", [])[:3]))
+                continue
+            n = len(want)
+            sf = R.search_fields(n, 6)
+            if n and rs["search"] != tuple(v & 0xFFFF for v in sf):
+                rec.violation("kern:reader:search-fields:" + cls, "searchRange/entrySelector/rangeShift %r, spec %r (mod 2^16)" % (rs["search"], sf))
+            if apple and rs["tupleIndex"] != i:
+                rec.violation("kern:reader:tupleIndex", "tupleIndex %r" % rs["tupleIndex"])
+            if not apple and n <= 10920 and rs["length"] != 14 + 6 * n:
+                rec.violation("kern:reader:length:" + cls, "length field %d for %d pairs" % (rs["length"], n))
+            if n == 0:
+                rec.witness("empty pair set")
+            if n > 10920 and not apple:
+                rec.witness("length field overflow (> 10920 pairs)")
+            if n >= 16384:
+                rec.witness("searchRange overflow (>= 16384 pairs)")
+            if [(l, r) for l, r, _v in want] != list(pr):
+                rec.witness("pairs re-sorted")
+            if any(v == -32768 for _l, _r, v in want):
+                rec.witness("value -32768")
+            if any(v == 32767 for _l, _r, v in want):
+                rec.witness("value 32767")
+        if len(subs) == 2:
+            rec.witness("two subtables")
+        if apple:
+            rec.witness("apple header")
+        # HarfBuzz: shaping two glyphs applies the pair value of a horizontal, non-cross-stream table
+        if nglyphs == 8 and all(c == 1 for c in covs):
+            base = dict(base_tables())
+            base["kern"] = data
+            maxp = bytearray(base["maxp"])
+            hb = hbridge.HBFont(R.sfnt_build(base))
+            ng = R.u16(bytes(maxp), 4)
+            merged = {}
+            for pr in subs:
+                for k, v in pr.items():
+                    merged[k] = merged.get(k, 0) + v
+            for (l, r), v in merged.items():
+                if l >= ng or r >= ng or l == 0 or r == 0:
+                    continue
+                adv = hb.h_advance(l) + hb.h_advance(r)
+                res = hb.shape(gids=[l, r], features={"kern": True})
+                # HarfBuzz splits the value over the two advances; the pair's total advance carries all of it
+                tot = sum(x[2] for x in res) - adv
+                if len(res) != 2 or tot != v:
+                    rec.violation("kern:harfbuzz:" + cls, "HarfBuzz kerning of (%d,%d) = %r, expected %d" % (l, r, tot, v))
+                    break
+
+
+# =============================================================================================
+# post, OS/2
+# =============================================================================================
+# first entries of the Macintosh standard glyph order ('post' format 1), from the spec
+STD_HEAD = [".notdef", ".null", "nonmarkingreturn", "space", "exclam", "quotedbl", "numbersign", "dollar", "percent", "ampersand"]
+POST_HEADERS = (
+    dict(italicAngle=0.0, underlinePosition=0, underlineThickness=0, isFixedPitch=0, minMemType42=0, maxMemType42=0, minMemType1=0, maxMemType1=0),
+    dict(italicAngle=-12.5, underlinePosition=-32768, underlineThickness=32767, isFixedPitch=1, minMemType42=0xFFFFFFFF, maxMemType42=1, minMemType1=0x80000000, maxMemType1=0x7FFFFFFF),
+    dict(italicAngle=-32768.0, underlinePosition=32767, underlineThickness=-32768, isFixedPitch=0xFFFFFFFF, minMemType42=2, maxMemType42=0xFFFFFFFF, minMemType1=3, maxMemType1=0xFFFFFFFF),
+    dict(italicAngle=32767 + 65535 / 65536, underlinePosition=-1, underlineThickness=1, isFixedPitch=0, minMemType42=0, maxMemType42=0, minMemType1=0, maxMemType1=0),
+)
+# (glyph order, mapping glyphName -> psName, stale extraNames)
+POST2_NAMES = (
+    ([".notdef"], {}, []),
+    ([".notdef", "space", "exclam"], {}, []),
+    ([".notdef", "foo", "bar.alt", "a_b_c"], {}, []),
+    ([".notdef", "exclam", "foo", "space", "foo2", ".null"], {}, []),
+    ([".notdef", "A", "A.1", "A.2"], {"A.1": "A", "A.2": "A"}, []),
+    ([".notdef", "foo", "foo.alt", "space.dup"], {"foo.alt": "foo", "space.dup": "space"}, []),
+    ([".notdef", "foo", "bar"], {}, ["unused", "bar", "space"]),
+    ([".notdef", "x" * 63, "y" * 255, "z"], {}, []),
+    ([".notdef"] + ["n%03d" % i for i in range(300)], {}, []),
+    ([".notdef", "b", "a", "c"], {"c": "a"}, ["a"]),
+)
+POST4_NAMES = ([".notdef", "A", "uni4E00", "foo", "space", "uniFFFE", "a#1"], [0xFFFF, 0x41, 0x4E00, 0xFFFF, 0x20, 0xFFFE, 0x61])
+
+
+def std_names():
+    n = _FIX.get("std")
+    if n is None:
+        from fontTools.ttLib.standardGlyphOrder import standardGlyphOrder
+
+        n = list(standardGlyphOrder)
+        assert len(n) == 258 and n[:10] == STD_HEAD and n[257] == "dcroat", "standard glyph order is not the spec's"
+        _FIX["std"] = n
+    return n
+
+
+def _order_font(order):
+    f = TTFont()
+    f.setGlyphOrder(list(order))
+    f["maxp"] = newTable("maxp")
+    f["maxp"].numGlyphs = len(order)
+    return f
+
+
+class PostUnit(Unit):
+    name = "post"
+    rule = ("post formats 1 (1, 3, 258 glyphs), 2 (10 name lists: standard / custom / standard out of order / duplicate PostScript "
+            "names through the mapping / stale extraNames / 63- and 255-byte names / 300 names), 3, 4 (AGL, uniXXXX, unencodable "
+            "names) x 4 header value sets at the field limits; oracle: header fields and per-glyph PostScript names after decompile "
+            "== input, struct reader reads the same header and the same name (format 2: index < 258 from the Macintosh order, else "
+            "Pascal string) for every glyph id; distinct = each (format, header, names)")
+    required_witnesses = ("format 1", "format 2 custom name", "format 2 standard index", "format 2 duplicate names", "format 3", "format 4", "255-byte name")
+    chunk = 6
+
+    def setup(self, tier, seed):
+        std_names()
+
+    def cases(self, tier, seed):
+        for h in range(len(POST_HEADERS)):
+            for n in (1, 3, 258):
+                yield [1, h, n]
+            for k in range(len(POST2_NAMES)):
+                yield [2, h, k]
+            yield [3, h, 0]
+            yield [4, h, 0]
+
+    def check(self, case, rec):
+        fmt, h, k = case
+        std = std_names()
+        hdr = POST_HEADERS[h]
+        mapping, extra = {}, []
+        if fmt == 1:
+            order = std[:k]
+        elif fmt == 2:
+            order, mapping, extra = POST2_NAMES[k]
+        elif fmt == 3:
+            order = [".notdef", "a", "b"]
+        else:
+            order = POST4_NAMES[0]
+        font = _order_font(order)
+        t = newTable("post")
+        t.formatType = float(fmt)
+        for a, v in hdr.items():
+            setattr(t, a, v)
+        if fmt == 2:
+            t.mapping = dict(mapping)
+            t.extraNames = list(extra)
+        rec.nontrivial()
+        cls = "format%d" % fmt
+        data = t.compile(font)
+        t2 = newTable("post")
+        t2.decompile(data, font)
+        for a, v in hdr.items():
+            if getattr(t2, a) != v:
+                rec.violation("post:decompile:header:" + a, "%s = %r, expected %r" % (a, getattr(t2, a), v))
+        if t2.formatType != float(fmt):
+            rec.violation("post:decompile:formatType", "formatType %r" % t2.formatType)
+        ps = [mapping.get(n, n) for n in order]
+        if fmt in (1, 2):
+            got = [getattr(t2, "mapping", {}).get(n, n) for n in t2.glyphOrder]
+            if got != ps:
+                rec.violation("post:decompile:names:" + cls, "PostScript names %r, expected %r" % (got[:8], ps[:8]))
+            if len(set(t2.glyphOrder)) != len(order):
+                rec.violation("post:decompile:glyph-names-not-unique:" + cls, "glyph order %r" % (t2.glyphOrder[:8],))
+        elif fmt == 3:
+            if t2.glyphOrder is not None:
+                rec.violation("post:decompile:format3", "glyphOrder %r" % (t2.glyphOrder,))
+        else:
+            got = [getattr(t2, "mapping", {}).get(n, n) for n in t2.glyphOrder]
+            want = {1: "A", 2: "uni4E00", 4: "space", 5: "uniFFFE", 6: "a"}
+            for i, nm in want.items():
+                if got[i] != nm:
+                    rec.violation("post:decompile:names:format4", "glyph %d reads back as %r, expected %r" % (i, got[i], nm))
+        try:
+            rh, rn = R.post(data, len(order), std)
+        except R.ReadError as e:
+            rec.violation("post:reader:" + cls, "independent reader: %s" % e)
+            return
+        want_hdr = dict(hdr)
+        want_hdr["italicAngle"] = int(round(hdr["italicAngle"] * 65536))
+        for a, v in want_hdr.items():
+            if rh[a] != v:
+                rec.violation("post:reader:header:" + a, "%s = %r, expected %r" % (a, rh[a], v))
+        if rh["version"] != fmt << 16:
+            rec.violation("post:reader:version", "version %#x" % rh["version"])
+        if fmt in (1, 2) and rn != ps:
+            rec.violation("post:reader:names:" + cls, "names %r, expected %r" % (rn[:8], ps[:8]))
+        if fmt == 3 and rn is not None:
+            rec.violation("post:reader:names:format3", "names present")
+        if fmt == 4 and rn != POST4_NAMES[1]:
+            rec.violation("post:reader:names:format4", "codes %r, expected %r" % (rn, POST4_NAMES[1]))
+        rec.witness({1: "format 1", 3: "format 3", 4: "format 4"}.get(fmt, "format 2 custom name" if any(n not in std for n in ps) else "format 2 standard index"))
+        if fmt == 2:
+            if any(n in std for n in ps[1:]):
+                rec.witness("format 2 standard index")
+            if len(set(ps)) < len(ps):
+                rec.witness("format 2 duplicate names")
+            if any(len(n) == 255 for n in ps):
+                rec.witness("255-byte name")
+            if rh.get("numStrings", 0) != len({n for n in ps if n not in std}):
+                rec.count("format 2 stores unused or repeated strings")
+
+
+OS2_LIMITS = {"H": (0, 1, 0xFFFF), "h": (-32768, -1, 32767), "L": (0, 0x80000000, 0xFFFFFFFF)}
+
+
+def os2_values(version, pattern, fidx):
+    """field -> value for one pattern: 'min' / 'mid' / 'max' / 'distinct' / ('one', fidx) = field fidx at max, others distinct."""
+    vals = {}
+    fields = R.os2_fields(version)
+    for i, (nm, c) in enumerate(fields):
+        if nm == "version":
+            vals[nm] = version
+            continue
+        if c == "10s":
+            b = {"min": bytes(10), "mid": bytes(range(1, 11)), "max": b"\xff" * 10}.get(pattern, bytes((i * 7 + k) % 256 for k in range(10)))
+            if pattern == "one" and i == fidx:
+                b = b"\xff" * 10
+            vals[nm] = b
+            continue
+        if c == "4s":
+            vals[nm] = {"min": "    ", "mid": "ABCD", "max": "~~~~"}.get(pattern, "Ab1 ")
+            continue
+        lo, mid, hi = OS2_LIMITS[c]
+        if pattern in ("min", "mid", "max"):
+            v = {"min": lo, "mid": mid, "max": hi}[pattern]
+        else:
+            v = (i * 257 + 3) if c != "h" else (i * 257 + 3) * (-1) ** i
+            if pattern == "one" and i == fidx:
+                v = hi
+        vals[nm] = v
+    return vals
+
+
+class OS2Unit(Unit):
+    name = "OS/2"
+    rule = ("OS/2 versions 0..5: all fields at their minimum / a middle value / their maximum / pairwise distinct values, and each "
+            "single field at its maximum among distinct others (so that a swapped or truncated field shows), panose and achVendID "
+            "included, version 5 optical sizes in twentieths of a point; oracle: every field after decompile == input, struct reader "
+            "finds every field at the spec's offset and the spec's table length for the version; distinct = each (version, values)")
+    required_witnesses = ("version 0", "version 1", "version 2", "version 3", "version 4", "version 5", "optical size in 1/20 pt")
+    chunk = 20
+
+    def cases(self, tier, seed):
+        for v in range(6):
+            for pat in ("min", "mid", "max", "distinct"):
+                yield [v, pat, 0]
+            for i in range(1, len(R.os2_fields(v))):
+                yield [v, "one", i]
+
+    def check(self, case, rec):
+        from fontTools.ttLib.tables.O_S_2f_2 import Panose
+
+        version, pat, fidx = case
+        vals = os2_values(version, pat, fidx)
+        t = newTable("OS/2")
+        pan_names = ["bFamilyType", "bSerifStyle", "bWeight", "bProportion", "bContrast", "bStrokeVariation", "bArmStyle", "bLetterForm", "bMidline", "bXHeight"]
+        for nm, v in vals.items():
+            if nm == "panose":
+                setattr(t, nm, Panose(**dict(zip(pan_names, v))))
+            elif nm in ("usLowerOpticalPointSize", "usUpperOpticalPointSize"):
+                setattr(t, nm, v / 20)
+            else:
+                setattr(t, nm, v)
+        rec.nontrivial()
+        rec.witness("version %d" % version)
+        if version == 5:
+            rec.witness("optical size in 1/20 pt")
+        font = TTFont()
+        data = t.compile(font)
+        t2 = newTable("OS/2")
+        t2.decompile(data, font)
+        for nm, v in vals.items():
+            g = getattr(t2, nm, None)
+            if nm == "panose":
+                g = bytes(getattr(g, k) for k in pan_names)
+            elif nm in ("usLowerOpticalPointSize", "usUpperOpticalPointSize"):
+                v = v / 20
+            if g != v:
+                rec.violation("OS/2:decompile:" + nm, "version %d: %s = %r, expected %r" % (version, nm, g, v))
+        try:
+            rd = R.os2(data)
+        except R.ReadError as e:
+            rec.violation("OS/2:reader:v%d" % version, "independent reader: %s" % e)
+            return
+        for nm, v in vals.items():
+            w = v.encode("latin-1") if isinstance(v, str) else v
+            if rd[nm] != w:
+                rec.violation("OS/2:reader:" + nm, "version %d: %s = %r at the spec offset, expected %r" % (version, nm, rd[nm], w))
+
+
+# =============================================================================================
+# OpenType Layout pieces: Coverage, ClassDef, SingleSubst, ValueRecord
+# =============================================================================================
+from fontTools.ttLib.tables import otTables as ot
+from fontTools.ttLib.tables.otBase import OTTableWriter, OTTableReader, ValueRecord
+
+OTL_SPREADS = {"dense0": lambda i: i, "dense10": lambda i: 10 + i, "sparse": lambda i: 3 * i + 1, "high": lambda i: 65527 + i}
+
+
+def otl_compile(t, font):
+    w = OTTableWriter()
+    t.compile(w, font)
+    return w.getAllData()
+
+
+def otl_decompile(cls, data, font):
+    t = cls()
+    t.decompile(OTTableReader(data), font)
+    return t
+
+
+def otl_table(tag, lookup_type, subtable):
+    """A complete GSUB/GPOS table: script DFLT, feature 'test', one lookup holding `subtable`."""
+    root = getattr(ot, tag)()
+    root.Version = 0x00010000
+    sr = ot.ScriptRecord()
+    sr.ScriptTag = "DFLT"
+    sr.Script = ot.Script()
+    sr.Script.DefaultLangSys = ot.DefaultLangSys()
+    sr.Script.DefaultLangSys.LookupOrder = None
+    sr.Script.DefaultLangSys.ReqFeatureIndex = 0xFFFF
+    sr.Script.DefaultLangSys.FeatureIndex = [0]
+    sr.Script.DefaultLangSys.FeatureCount = 1
+    sr.Script.LangSysRecord = []
+    sr.Script.LangSysCount = 0
+    root.ScriptList = ot.ScriptList()
+    root.ScriptList.ScriptRecord = [sr]
+    root.ScriptList.ScriptCount = 1
+    fr = ot.FeatureRecord()
+    fr.FeatureTag = "test"
+    fr.Feature = ot.Feature()
+    fr.Feature.FeatureParams = None
+    fr.Feature.LookupListIndex = [0]
+    fr.Feature.LookupCount = 1
+    root.FeatureList = ot.FeatureList()
+    root.FeatureList.FeatureRecord = [fr]
+    root.FeatureList.FeatureCount = 1
+    lk = ot.Lookup()
+    lk.LookupType = lookup_type
+    lk.LookupFlag = 0
+    lk.SubTable = [subtable]
+    lk.SubTableCount = 1
+    root.LookupList = ot.LookupList()
+    root.LookupList.Lookup = [lk]
+    root.LookupList.LookupCount = 1
+    t = newTable(tag)
+    t.table = root
+    return t
+
+
+def otl_subtable_offset(data, tag):
+    ltype, _flag, subs = R.otl_first_subtable(data)
+    if len(subs) != 1:
+        raise R.ReadError("%d subtables" % len(subs))
+    ext = 7 if tag == "GSUB" else 9
+    off = subs[0]
+    if ltype == ext:
+        ltype, off = R.otl_resolve_extension(data, off)
+    return ltype, off
+
+
+def otl_hb_font(tag, data):
+    base = dict(base_tables())
+    maxp = bytearray(base["maxp"])
+    maxp[4:6] = struct.pack(">H", 65535)
+    base["maxp"] = bytes(maxp)
+    base[tag] = data
+    return hbridge.HBFont(R.sfnt_build(base))
+
+
+VR_NAMES = R.VALUE_FIELDS
+VR_INTS = (-3, 7, -32768, 32767)
+
+
+class OtlUnit(Unit):
+    name = "otl-pieces"
+    rule = ("Coverage: every subset of glyph ids {0..5} (quick) / {0..7} (thorough) x id spreads (dense from 0, dense from 10, every "
+            "third id, top of the id range 65527+) x orders (sorted, reversed, rotated); ClassDef: every class assignment over "
+            "{0,1,2} for 6 glyphs x the same spreads; SingleSubst inside a real GSUB: every non-empty subset of inputs "
+            "{1,2,3,65533,65534} x outputs by constant delta {+1,-1,+5,+3 (wraps at 65536),-65530} or scattered; SinglePos "
+            "format 1 inside a real GPOS: every ValueFormat mask 0..0xFF with limit values and Device (formats 1,2,3) / "
+            "VariationIndex tables; oracle: decompiled glyph list / class dict / mapping / value record == input whichever format "
+            "the writer chose, struct reader gets the same coverage indices / classes / substitutions / values from the bytes, "
+            "HarfBuzz substitutes / positions accordingly; distinct = each input")
+    required_witnesses = ("coverage format 1", "coverage format 2", "coverage unsorted input", "classdef format 1", "classdef format 2", "classdef empty",
+                          "singlesubst format 1", "singlesubst format 2", "singlesubst delta wraps at 65536", "valuerecord with device table",
+                          "valuerecord with VariationIndex", "valuerecord empty format")
+    chunk = 60
+
+    def setup(self, tier, seed):
+        bigfont()
+        base_tables()
+
+    def cases(self, tier, seed):
+        nb = 6 if tier == "quick" else 8
+        for spread in OTL_SPREADS:
+            for bits in range(1 << nb):
+                for order in ("sorted", "reversed", "rotated"):
+                    if order != "sorted" and bin(bits).count("1") < 2:
+                        continue
+                    yield ["cov", spread, bits, order]
+        for spread in OTL_SPREADS:
+            for a in range(3 ** 6):
+                yield ["cls", spread, a]
+        pool = (1, 2, 3, 65533, 65534)
+        for bits in range(1, 32):
+            for rule in ("+1", "-1", "+5", "+3", "-65530", "scatter"):
+                yield ["ss", bits, rule]
+        yield ["ss", 0, "+1"]
+        for mask in range(256):
+            for variant in range(3):
+                yield ["vr", mask, variant]
+
+    def check(self, case, rec):
+        getattr(self, "check_" + case[0])(case, rec)
+
+    # ---- Coverage ------------------------------------------------------------------------
+    def check_cov(self, case, rec):
+        _k, spread, bits, order = case
+        font = bigfont()
+        gids = [OTL_SPREADS[spread](i) for i in range(8) if bits >> i & 1]
+        if order == "reversed":
+            gids.reverse()
+        elif order == "rotated":
+            gids = gids[1:] + gids[:1]
+        rec.nontrivial()
+        c = ot.Coverage()
+        c.glyphs = [gname(g) for g in gids]
+        data = otl_compile(c, font)
+        c2 = otl_decompile(ot.Coverage, data, font)
+        cls = "%s:%s" % (spread, order)
+        if c2.glyphs != [gname(g) for g in gids]:
+            rec.violation("coverage:decompile:" + cls, "glyphs %r, expected %r" % (c2.glyphs, [gname(g) for g in gids]))
+        try:
+            rd = R.coverage(data)
+        except R.ReadError as e:
+            rec.violation("coverage:reader:" + cls, "independent reader: %s" % e)
+            return
+        if rd != gids:
+            rec.violation("coverage:reader:" + cls, "coverage order %r, expected %r" % (rd, gids))
+        if order == "sorted":
+            for err in R.coverage_sorted_errors(data):
+                rec.violation("coverage:structure:" + cls, err)
+        else:
+            rec.witness("coverage unsorted input")
+        rec.witness("coverage format %d" % R.u16(data, 0))
+
+    # ---- ClassDef ------------------------------------------------------------------------
+    def check_cls(self, case, rec):
+        _k, spread, a = case
+        font = bigfont()
+        digits = _mixed(a, [3] * 6)
+        assign = {OTL_SPREADS[spread](i): d for i, d in enumerate(digits)}
+        rec.nontrivial()
+        cd = ot.ClassDef()
+        # class 0 listed explicitly for some glyphs: it is the default and may be dropped
+        cd.classDefs = {gname(g): c for g, c in reversed(list(assign.items()))}
+        data = otl_compile(cd, font)
+        cd2 = otl_decompile(ot.ClassDef, data, font)
+        want = {g: c for g, c in assign.items() if c}
+        cls = spread
+        if cd2.classDefs != {gname(g): c for g, c in want.items()}:
+            rec.violation("classdef:decompile:" + cls, "classes %r, expected %r" % (cd2.classDefs, want))
+        try:
+            rd = R.classdef(data)
+        except R.ReadError as e:
+            rec.violation("classdef:reader:" + cls, "independent reader: %s" % e)
+            return
+        if rd != want:
+            rec.violation("classdef:reader:" + cls, "classes %r, expected %r" % (rd, want))
+        rec.witness("classdef format %d" % R.u16(data, 0))
+        if not want:
+            rec.witness("classdef empty")
+
+    # ---- SingleSubst ---------------------------------------------------------------------
+    def check_ss(self, case, rec):
+        _k, bits, rule = case
+        font = bigfont()
+        pool = (1, 2, 3, 65533, 65534)
+        ins = [g for i, g in enumerate(pool) if bits >> i & 1]
+        if rule == "scatter":
+            outs = [(g * 7 + 11) % 65000 + 1 for g in ins]
+        else:
+            outs = [(g + int(rule)) % 65536 for g in ins]
+        if any(o >= 65535 for o in outs):
+            rec.count("outside-domain:substitute is not a glyph id")
+            return
+        mapping = dict(zip(ins, outs))
+        rec.nontrivial()
+        ss = ot.SingleSubst()
+        ss.mapping = {gname(a): gname(b) for a, b in reversed(list(mapping.items()))}
+        t = otl_table("GSUB", 1, ss)
+        data = t.compile(font)
+        t2 = newTable("GSUB")
+        t2.decompile(data, font)
+        lk = t2.table.LookupList.Lookup[0]
+        got = lk.SubTable[0]
+        if lk.LookupType == 7:
+            got = got.ExtSubTable
+        cls = rule if rule in ("scatter",) else "delta"
+        if got.mapping != {gname(a): gname(b) for a, b in mapping.items()}:
+            rec.violation("singlesubst:decompile:" + cls, "mapping %r, expected %r" % (got.mapping, mapping))
+        try:
+            ltype, off = otl_subtable_offset(data, "GSUB")
+            rd = R.single_subst(data, off)
+        except R.ReadError as e:
+            rec.violation("singlesubst:reader:" + cls, "independent reader: %s" % e)
+            return
+        if ltype != 1 or rd != mapping:
+            rec.violation("singlesubst:reader:" + cls, "lookup type %d, substitutions %r, expected %r" % (ltype, rd, mapping))
+        fmt = R.u16(data, off)
+        rec.witness("singlesubst format %d" % fmt)
+        if fmt == 1 and any(b < a for a, b in mapping.items()) and R.i16(data, off + 4) > 0:
+            rec.witness("singlesubst delta wraps at 65536")
+        if not mapping:
+            return
+        hb = otl_hb_font("GSUB", data)
+        for a, b in mapping.items():
+            res = hb.shape(gids=[a], features={"test": True})
+            if [x[0] for x in res] != [b]:
+                rec.violation("singlesubst:harfbuzz:" + cls, "HarfBuzz turns glyph %d into %r, expected %d" % (a, [x[0] for x in res], b))
+                break
+        probe = 5
+        res = hb.shape(gids=[probe], features={"test": True})
+        if [x[0] for x in res] != [mapping.get(probe, probe)]:
+            rec.violation("singlesubst:harfbuzz:uncovered", "HarfBuzz substitutes uncovered glyph %d -> %r" % (probe, res))
+
+    # ---- ValueRecord ---------------------------------------------------------------------
+    def make_device(self, k):
+        d = ot.Device()
+        if k % 4 == 3:
+            d.StartSize, d.EndSize, d.DeltaFormat, d.DeltaValue = 3 + k, 0xFFFF - k, 0x8000, []
+            return d, ("varidx", 3 + k, 0xFFFF - k)
+        fmt = k % 4 + 1
+        lim = {1: (-2, 1), 2: (-8, 7), 3: (-128, 127)}[fmt]
+        n = (3, 9, 1, 16)[k % 4]
+        vals = [lim[0] if i % 3 == 0 else lim[1] if i % 3 == 1 else 0 for i in range(n)]
+        d.StartSize, d.EndSize, d.DeltaFormat, d.DeltaValue = 9, 9 + n - 1, fmt, list(vals)
+        return d, ("device", 9, 9 + n - 1, fmt, tuple(vals))
+
+    def check_vr(self, case, rec):
+        _k, mask, variant = case
+        font = bigfont()
+        rec.nontrivial()
+        v = ValueRecord()
+        want_ints, want_devs = {}, {}
+        for bit, nm in enumerate(VR_NAMES):
+            if not mask >> bit & 1:
+                continue
+            if bit < 4:
+                val = VR_INTS[(bit + variant) % 4]
+                setattr(v, nm, val)
+                want_ints[nm] = val
+            else:
+                dev, desc = self.make_device(bit + variant)
+                setattr(v, nm, dev)
+                want_devs[nm] = desc
+        sp = ot.SinglePos()
+        sp.Format = 1
+        sp.Coverage = ot.Coverage()
+        sp.Coverage.glyphs = [gname(3)]
+        sp.ValueFormat = mask
+        sp.Value = v if mask else None
+        t = otl_table("GPOS", 1, sp)
+        data = t.compile(font)
+        t2 = newTable("GPOS")
+        t2.decompile(data, font)
+        lk = t2.table.LookupList.Lookup[0]
+        got = lk.SubTable[0]
+        if lk.LookupType == 9:
+            got = got.ExtSubTable
+        cls = "devices" if mask & 0xF0 else "ints"
+        gv = got.Value
+        gd = dict(gv.__dict__) if gv is not None else {}
+        gi = {k_: x for k_, x in gd.items() if k_ in VR_NAMES[:4]}
+        gdev = {}
+        for k_, x in gd.items():
+            if k_ in VR_NAMES[4:] and x is not None:
+                gdev[k_] = ("varidx", x.StartSize, x.EndSize) if x.DeltaFormat == 0x8000 else ("device", x.StartSize, x.EndSize, x.DeltaFormat, tuple(x.DeltaValue))
+        if got.ValueFormat != mask or gi != want_ints or gdev != want_devs:
+            rec.violation("valuerecord:decompile:" + cls, "ValueFormat %#x values %r devices %r; expected %#x %r %r" % (got.ValueFormat, gi, gdev, mask, want_ints, want_devs))
+        try:
+            ltype, off = otl_subtable_offset(data, "GPOS")
+            cov, vf, recd, devs = R.single_pos1(data, off)
+        except R.ReadError as e:
+            rec.violation("valuerecord:reader:" + cls, "independent reader: %s" % e)
+            return
+        ri = {k_: x for k_, x in recd.items() if k_ in VR_NAMES[:4]}
+        if ltype != 1 or cov != [3] or vf != mask or ri != want_ints or devs != want_devs:
+            rec.violation("valuerecord:reader:" + cls, "coverage %r ValueFormat %#x values %r devices %r; expected %#x %r %r" % (cov, vf, ri, devs, mask, want_ints, want_devs))
+        if any(d[0] == "device" for d in want_devs.values()):
+            rec.witness("valuerecord with device table")
+        if any(d[0] == "varidx" for d in want_devs.values()):
+            rec.witness("valuerecord with VariationIndex")
+        if mask == 0:
+            rec.witness("valuerecord empty format")
+        hb = otl_hb_font("GPOS", data)
+        adv = hb.h_advance(3)
+        res = hb.shape(gids=[3], features={"test": True})
+        wantpos = (adv + want_ints.get("XAdvance", 0), want_ints.get("XPlacement", 0), want_ints.get("YPlacement", 0))
+        gotpos = (res[0][2], res[0][4], res[0][5]) if res else None
+        if gotpos != wantpos:
+            rec.violation("valuerecord:harfbuzz:" + cls, "HarfBuzz (x_advance, x_offset, y_offset) = %r, expected %r" % (gotpos, wantpos))
+
+
+# =============================================================================================
+# tuple variation stores, gvar, cvar, fvar, avar
+# =============================================================================================
+from fontTools.ttLib.tables import TupleVariation as TV
+
+TV_AXES = ["wght", "wdth"]
+TV_REGIONS = (
+    {"wght": (0.0, 1.0, 1.0)},
+    {"wght": (-1.0, -1.0, 0.0)},
+    {"wght": (0.25, 0.5, 0.75)},
+    {"wght": (0.0, 1.0, 1.0), "wdth": (0.0, 1.0, 1.0)},
+    {"wght": (0.0, 0.5, 1.0), "wdth": (-1.0, -0.5, 0.0)},
+    {"wdth": (0.0, 0.5, 0.5)},
+)
+TV_DELTAS = (0, 1, -1, 127, -128, 128, -129, 32767, -32768, 5)
+TV_MASKS12 = (0, 31, 1, 16, 5, 10, 21, 30, 15, 3, 24, 17)
+TV_NPTS = 5
+
+
+def f214(v):
+    return int(round(v * 16384))
+
+
+def tv_region_raw(region):
+    """-> (peak, start|None, end|None) as F2Dot14 ints per axis, intermediate only when the
+    region is not the default one implied by the peak (OpenType 'Tuple variation store')."""
+    peak, start, end, inter = [], [], [], False
+    for a in TV_AXES:
+        lo, pk, hi = region.get(a, (0.0, 0.0, 0.0))
+        peak.append(f214(pk))
+        start.append(f214(lo))
+        end.append(f214(hi))
+        if (lo, hi) != (min(pk, 0.0), max(pk, 0.0)):
+            inter = True
+    return (peak, start, end) if inter else (peak, None, None)
+
+
+def tv_make(ri, mask, width, salt):
+    coords = []
+    for i in range(TV_NPTS):
+        if not mask >> i & 1:
+            coords.append(None)
+        elif width == 2:
+            coords.append((TV_DELTAS[(i + salt) % 10], TV_DELTAS[(3 * i + salt + 1) % 10]))
+        else:
+            coords.append(TV_DELTAS[(i + salt) % 10])
+    return TV.TupleVariation(dict(TV_REGIONS[ri]), coords)
+
+
+class TupleStoreUnit(Unit):
+    name = "tuple-store"
+    rule = ("tuple variation stores over 2 axes and 5 points: variation = (region in {peak +1, peak -1, intermediate, two-axis corner, "
+            "two-axis mixed intermediate, second axis only} x None-mask); singles: every mask (32) x gvar (x,y) / cvar (scalar) "
+            "deltas x shared points on/off x peak found in the shared tuples or embedded; pairs: all ordered pairs over 12 masks "
+            "(quick) / 32 masks (thorough); thorough also triples over 6 masks; whole cvar tables (singles, pairs over 6 masks) against a 5-value cvt; oracle: decompileTupleVariationStore(compile...) == "
+            "the variations that have at least one delta, struct reader (packed points/deltas per the spec) finds the same regions "
+            "(intermediate tuples exactly when needed) and the same explicit deltas; distinct = each (variations, options)")
+    required_witnesses = ("shared point numbers used", "private point numbers", "all points (count 0)", "embedded peak", "shared peak tuple",
+                          "intermediate region", "empty variation dropped", "cvar scalar deltas", "no variation left", "cvar table")
+    chunk = 200
+
+    def cases(self, tier, seed):
+        for ri in range(6):
+            for mask in range(32):
+                for width in (2, 1):
+                    for sp in (1, 0):
+                        for st in (1, 0):
+                            yield [[[ri, mask]], width, sp, st]
+        for ri in range(6):
+            for mask in range(32):
+                yield ["cvartable", [[ri, mask]]]
+        small = [(ri, m) for ri in range(6) for m in TV_MASKS12[:6]]
+        for a in small:
+            for b in small:
+                yield ["cvartable", [list(a), list(b)]]
+        masks = TV_MASKS12 if tier == "quick" else tuple(range(32))
+        atoms = [(ri, m) for ri in range(6) for m in masks]
+        for a in atoms:
+            for b in atoms:
+                for sp in (1, 0):
+                    yield [[list(a), list(b)], 2, sp, 1]
+        if tier != "quick":
+            atoms = [(ri, m) for ri in range(6) for m in TV_MASKS12[:6]]
+            for a in atoms:
+                for b in atoms:
+                    for c in atoms:
+                        yield [[list(a), list(b), list(c)], 2 if (a[0] + b[0]) % 2 == 0 else 1, (a[1] + c[1]) % 2, 1]
+
+    def check_cvar_table(self, specs, rec):
+        """the whole 'cvar' table: header + store, decompiled against a 5-value 'cvt '"""
+        from fontTools.ttLib.tables._f_v_a_r import Axis
+
+        font = _FIX.get("cvarfont")
+        if font is None:
+            font = TTFont()
+            font["fvar"] = newTable("fvar")
+            for t in TV_AXES:
+                a = Axis()
+                a.axisTag = t
+                font["fvar"].axes.append(a)
+            font["cvt "] = newTable("cvt ")
+            font["cvt "].values = [0] * TV_NPTS
+            _FIX["cvarfont"] = font
+        rec.nontrivial()
+        rec.witness("cvar table")
+        t = newTable("cvar")
+        t.variations = [tv_make(ri, m, 1, k) for k, (ri, m) in enumerate(specs)]
+        data = t.compile(font)
+        t2 = newTable("cvar")
+        t2.decompile(data, font)
+        kept = [(k, ri, m) for k, (ri, m) in enumerate(specs) if m]
+        want = [tv_make(ri, m, 1, k) for k, ri, m in kept]
+        if len(t2.variations) != len(want) or any(not (g == w) for g, w in zip(t2.variations, want)):
+            rec.violation("cvar:decompile", "decompiled %r, expected %r" % (t2.variations, want))
+        try:
+            if (R.u16(data, 0), R.u16(data, 2)) != (1, 0):
+                raise R.ReadError("cvar version %d.%d" % (R.u16(data, 0), R.u16(data, 2)))
+            rd = R.tuple_variation_store(data, 8, R.u16(data, 6), R.u16(data, 4), 2, TV_NPTS, [], 1) if kept else []
+        except R.ReadError as e:
+            rec.violation("cvar:reader", "independent reader: %s" % e)
+            return
+        exp = []
+        for k, ri, m in kept:
+            peak, start, end = tv_region_raw(TV_REGIONS[ri])
+            exp.append((peak, start, end, {i: (c,) for i, c in enumerate(tv_make(ri, m, 1, k).coordinates) if c is not None}))
+        if rd != exp:
+            rec.violation("cvar:reader", "independent reader sees %r, expected %r" % (rd, exp))
+
+    def check(self, case, rec):
+        if case[0] == "cvartable":
+            return self.check_cvar_table(case[1], rec)
+        specs, width, use_shared_pts, shared_tuple = case
+        variations = [tv_make(ri, m, width, k) for k, (ri, m) in enumerate(specs)]
+        rec.nontrivial()
+        shared_idx, shared_list, shared_raw = {}, [], []
+        if shared_tuple:
+            v0 = TV.TupleVariation(dict(TV_REGIONS[0]), [])
+            shared_idx = {v0.compileCoord(TV_AXES): 0}
+            shared_list = [{"wght": 1.0, "wdth": 0.0}]
+            shared_raw = [[16384, 0]]
+        tag = "gvar" if width == 2 else "cvar"
+        count, tuples, data = TV.compileTupleVariationStore(variations, TV_NPTS, TV_AXES, shared_idx, useSharedPoints=bool(use_shared_pts))
+        blob = bytes(tuples) + bytes(data)
+        kept = [(k, ri, m) for k, (ri, m) in enumerate(specs) if m]
+        if len(kept) < len(specs):
+            rec.witness("empty variation dropped")
+        if not kept:
+            rec.witness("no variation left")
+            if count != 0 or blob:
+                rec.violation("tuple-store:empty", "store of empty variations compiled to count %r and %d bytes" % (count, len(blob)))
+            return
+        cls = "%s:%s" % (tag, "shared-points" if use_shared_pts else "private-points")
+        got = TV.decompileTupleVariationStore(tag, TV_AXES, count, TV_NPTS, shared_list, blob, 0, len(tuples))
+        want = [tv_make(ri, m, width, k) for k, ri, m in kept]
+        if len(got) != len(want) or any(not (g == w) for g, w in zip(got, want)):
+            rec.violation("tuple-store:decompile:" + cls, "decompiled %r, expected %r" % (got, want))
+        try:
+            rd = R.tuple_variation_store(blob, 0, len(tuples), count, 2, TV_NPTS, shared_raw, width)
+        except R.ReadError as e:
+            rec.violation("tuple-store:reader:" + cls, "independent reader: %s" % e)
+            return
+        exp = []
+        for k, ri, m in kept:
+            peak, start, end = tv_region_raw(TV_REGIONS[ri])
+            v = tv_make(ri, m, width, k)
+            d = {i: (c if width == 2 else (c,)) for i, c in enumerate(v.coordinates) if c is not None}
+            exp.append((peak, start, end, d))
+        if rd != exp:
+            rec.violation("tuple-store:reader:" + cls, "independent reader sees %r, expected %r" % (rd, exp))
+        # witnesses from the bytes
+        if count & 0x8000:
+            rec.witness("shared point numbers used")
+        hp = 0
+        for _ in range(count & 0xFFF):
+            idx = R.u16(blob, hp + 2)
+            hp += 4 + (4 if idx & 0x8000 else 0) + (8 if idx & 0x4000 else 0)
+            rec.witness("embedded peak" if idx & 0x8000 else "shared peak tuple")
+            if idx & 0x4000:
+                rec.witness("intermediate region")
+            if idx & 0x2000:
+                rec.witness("private point numbers")
+        if any(m == 31 for _k, _r, m in kept):
+            rec.witness("all points (count 0)")
+        if width == 1:
+            rec.witness("cvar scalar deltas")
+
+
+# ---------------------------------------------------------------------------------------------
+# gvar inside a font (FontBuilder), read back by fontTools, the struct reader and HarfBuzz
+GV_A = [(0, 0, 1), (100, 0, 1), (100, 100, 0), (0, 100, 1)]
+GV_B = ([(0, 0, 1), (60, 0, 1), (200, 0, 1), (300, 100, 1), (200, 200, 0)], [1, 4])
+GV_LOCS = [(w, d) for w in (-1.0, -0.5, 0.0, 0.25, 0.5, 0.75, 1.0) for d in (-1.0, -0.5, 0.0, 0.5, 1.0)]
+
+
+GV_LOCS_QUICK = [(-1.0, 0.0), (-0.5, -0.5), (0.0, 0.0), (0.25, 0.0), (0.5, 0.0), (0.5, -0.5), (0.75, 0.5), (1.0, 0.0), (1.0, 1.0), (0.5, 1.0), (0.0, 0.5), (1.0, -1.0)]
+
+
+def tent(loc, lo, pk, hi):
+    if pk == 0:
+        return Fraction(1)
+    loc, lo, pk, hi = Fraction(loc), Fraction(lo), Fraction(pk), Fraction(hi)
+    if loc < lo or loc > hi:
+        return Fraction(0)
+    if loc == pk:
+        return Fraction(1)
+    return (loc - lo) / (pk - lo) if loc < pk else (hi - loc) / (hi - pk)
+
+
+def region_scalar(region, loc):
+    s = Fraction(1)
+    for a, x in zip(TV_AXES, loc):
+        lo, pk, hi = region.get(a, (0.0, 0.0, 0.0))
+        s *= tent(x, lo, pk, hi)
+    return s
+
+
+def iup_axis(coords, deltas, touched):
+    """Inferred deltas of one contour and one coordinate (OpenType 'Inferred deltas for un-referenced points')."""
+    n = len(coords)
+    idx = [i for i in range(n) if touched[i]]
+    if not idx:
+        return [Fraction(0)] * n
+    out = [Fraction(d) if d is not None else None for d in deltas]
+    if len(idx) == 1:
+        return [out[idx[0]]] * n
+    for k, a in enumerate(idx):
+        b = idx[(k + 1) % len(idx)]
+        i = (a + 1) % n
+        while i != b:
+            ca, cb, c = coords[a], coords[b], coords[i]
+            da, db = out[a], out[b]
+            if ca == cb:
+                out[i] = da if da == db else Fraction(0)
+            else:
+                if ca > cb:
+                    ca, cb, da, db = cb, ca, db, da
+                if c <= ca:
+                    out[i] = da
+                elif c >= cb:
+                    out[i] = db
+                else:
+                    out[i] = da + (db - da) * Fraction(c - ca, cb - ca)
+            i = (i + 1) % n
+    return out
+
+
+def apply_tuples(pts, ends, tuples, loc):
+    """points (x,y,f) + list of (region, coordinates incl. 4 phantoms) at loc -> (varied points, phantom deltas)."""
+    n = len(pts)
+    acc = [[Fraction(x), Fraction(y)] for x, y, _f in pts] + [[Fraction(0), Fraction(0)] for _ in range(4)]
+    for region, coords in tuples:
+        if all(c is None for c in coords):
+            continue
+        s = region_scalar(region, loc)
+        if s == 0:
+            continue
+        full = [None] * (n + 4)
+        if None not in coords:
+            full = [(Fraction(c[0]), Fraction(c[1])) for c in coords]
+        else:
+            dx, dy = [None] * (n + 4), [None] * (n + 4)
+            st = 0
+            for e in list(ends) + [n, n + 1, n + 2, n + 3]:
+                rng = list(range(st, e + 1))
+                st = e + 1
+                touched = [coords[i] is not None for i in rng]
+                xs = iup_axis([pts[i][0] if i < n else 0 for i in rng], [coords[i][0] if coords[i] is not None else None for i in rng], touched)
+                ys = iup_axis([pts[i][1] if i < n else 0 for i in rng], [coords[i][1] if coords[i] is not None else None for i in rng], touched)
+                for j, i in enumerate(rng):
+                    dx[i], dy[i] = xs[j], ys[j]
+            full = list(zip(dx, dy))
+        for i in range(n + 4):
+            acc[i][0] += s * full[i][0]
+            acc[i][1] += s * full[i][1]
+    return [(float(acc[i][0]), float(acc[i][1]), pts[i][2]) for i in range(n)], acc[n:]
+
+
+def gv_tuple(ri, mask, npts, phantom, salt):
+    coords = []
+    for i in range(npts):
+        coords.append((TV_DELTAS[(i + salt) % 8] % 200 - 64, TV_DELTAS[(2 * i + salt + 3) % 8] % 150 - 30) if mask >> i & 1 else None)
+    if phantom == 0:
+        coords += [None] * 4
+    elif phantom == 1:
+        coords += [(0, 0)] * 4
+    else:
+        coords += [(0, 0), (50 + salt, 0), (0, 0), (0, 0)]
+    return (dict(TV_REGIONS[ri]), coords)
+
+
+class GvarFontUnit(Unit):
+    name = "gvar-font"
+    rule = ("variable fonts built with FontBuilder (2 axes; glyph A 4 points, B two contours, C composite of A): A's variations = one "
+            "tuple over 6 regions x every None-mask of the 4 outline points x phantom deltas {absent, zero, advance +50}, or two "
+            "tuples over 6x6 regions x 6x6 masks (quick: the quarter named by the seed; thorough: 10x10 masks); B and C reuse the peaks (shared tuples across glyphs); saved and reloaded; "
+            "oracle: gvar.variations == input minus all-None tuples, struct reader of gvar (offsets, shared tuples, tuple stores) "
+            "finds the same regions and explicit deltas, HarfBuzz outlines and advance at 35 normalized locations equal base + "
+            "sum(scalar x delta) with un-referenced points inferred per the spec; distinct = each font")
+    required_witnesses = ("shared tuple in gvar header", "inferred deltas (IUP)", "phantom advance delta", "composite offset delta", "glyph without variations",
+                          "intermediate region scalar strictly between 0 and 1")
+    chunk = 6
+
+    def cases(self, tier, seed):
+        for ri in range(6):
+            for mask in range(16):
+                for ph in range(3):
+                    yield [[[ri, mask, ph]], tier]
+        reps = (15, 1, 8, 5, 10, 7) if tier == "quick" else (15, 1, 2, 4, 8, 5, 10, 7, 3, 12)
+        for r1 in range(6):
+            for r2 in range(6):
+                for m1 in reps:
+                    for m2 in reps:
+                        if tier == "quick" and (m1 * 7 + m2 + r1 + r2) % 4 != seed % 4 and not (m1 == 15 and m2 == 15):
+                            continue
+                        yield [[[r1, m1, 1], [r2, m2, 0]], tier]
+
+    def check(self, case, rec):
+        specs = case[0]
+        locs = GV_LOCS_QUICK if case[1] == "quick" else GV_LOCS
+        rec.nontrivial()
+        tA = [gv_tuple(ri, m, 4, ph, k) for k, (ri, m, ph) in enumerate(specs)]
+        r0 = specs[0][0]
+        tB = [gv_tuple(r0, 0b01101, 5, 1, 2), gv_tuple((r0 + 1) % 6, 0b11111, 5, 1, 4)]
+        tC = [(dict(TV_REGIONS[r0]), [(30, -20), None, None, None, None])]
+        names = [".notdef", "A", "B", "C", "D"]
+        comp = [dict(base="A", xy=(40, 10), t=None, flags=0)]
+        glyphs = {".notdef": G.Glyph(), "A": make_simple(GV_A, [3], b""), "B": make_simple(GV_B[0], GV_B[1], b""),
+                  "C": make_composite(comp, None), "D": make_simple(GV_A, [3], b"")}
+        fb = FontBuilder(1000, isTTF=True)
+        fb.setupGlyphOrder(names)
+        fb.setupCharacterMap({})
+        fb.setupGlyf(glyphs)
+        fb.setupHorizontalMetrics({n: (600, getattr(glyphs[n], "xMin", 0)) for n in names})
+        fb.setupHorizontalHeader(ascent=800, descent=-200)
+        fb.setupNameTable({"familyName": "T", "styleName": "R"})
+        fb.setupFvar([("wght", 100, 400, 900, "Weight"), ("wdth", 50, 100, 200, "Width")], [])
+        mk = lambda tl: [TV.TupleVariation(dict(r), list(c)) for r, c in tl]
+        fb.setupGvar({"A": mk(tA), "B": mk(tB), "C": mk(tC)})
+        fb.setupPost(keepGlyphNames=True)
+        data = save_bytes(fb.font)
+        font2 = TTFont(io.BytesIO(data))
+        gv2 = font2["gvar"]
+        cls = "tuples=%d" % len(specs)
+        for gn, tl in (("A", tA), ("B", tB), ("C", tC), ("D", [])):
+            want = [TV.TupleVariation(dict(r), list(c)) for r, c in tl if any(x is not None for x in c)]
+            got = list(gv2.variations.get(gn, []))
+            if len(got) != len(want) or any(not (g == w) for g, w in zip(got, want)):
+                rec.violation("gvar:decompile:" + cls, "glyph %s: %r, expected %r" % (gn, got, want))
+        # struct reader
+        try:
+            tabs = R.sfnt_tables(data)
+            shared, blobs, _long = R.gvar(tabs["gvar"], 2)
+            if len(blobs) != 5:
+                raise R.ReadError("gvar glyphCount %d" % len(blobs))
+            for gi, (gn, tl, npts) in enumerate((("A", tA, 8), ("B", tB, 9), ("C", tC, 5), ("D", [], 8)), start=1):
+                b = blobs[gi]
+                kept = [(r, c) for r, c in tl if any(x is not None for x in c)]
+                if not kept:
+                    if b:
+                        rec.violation("gvar:reader:" + cls, "glyph %s without variations has %d bytes of data" % (gn, len(b)))
+                    rec.witness("glyph without variations")
+                    continue
+                rd = R.tuple_variation_store(b, 4, R.u16(b, 2), R.u16(b, 0), 2, npts, shared, 2)
+                exp = []
+                for r, c in kept:
+                    peak, st, en = tv_region_raw(r)
+                    exp.append((peak, st, en, {i: tuple(x) for i, x in enumerate(c) if x is not None}))
+                if rd != exp:
+                    rec.violation("gvar:reader:" + cls, "glyph %s: reader sees %r, expected %r" % (gn, rd, exp))
+            if shared:
+                rec.witness("shared tuple in gvar header")
+        except R.ReadError as e:
+            rec.violation("gvar:reader:" + cls, "independent reader: %s" % e)
+        # HarfBuzz
+        hb = hbridge.HBFont(data)
+        for loc in locs:
+            hb.set_normalized(loc)
+            pa, pha = apply_tuples(GV_A, [3], tA, loc)
+            msg = geom.contours_close(ref_outline(pa, [3]), hb.outline(1), 0.02)
+            if msg:
+                rec.violation("gvar:harfbuzz:outline:" + cls, "glyph A at %r: %s" % (loc, msg))
+                break
+            adv = 600 + pha[1][0] - pha[0][0]
+            if adv.denominator != 2 and hb.h_advance(1) != otround(adv):
+                rec.violation("gvar:harfbuzz:advance:" + cls, "glyph A at %r: advance %r, expected %r" % (loc, hb.h_advance(1), float(adv)))
+                break
+            if pha[1][0] != 0:
+                rec.witness("phantom advance delta")
+            pb, _ph = apply_tuples(GV_B[0], GV_B[1], tB, loc)
+            msg = geom.contours_close(ref_outline(pb, GV_B[1]), hb.outline(2), 0.02)
+            if msg:
+                rec.violation("gvar:harfbuzz:outline:" + cls, "glyph B at %r: %s" % (loc, msg))
+                break
+            s = region_scalar(TV_REGIONS[r0], loc)
+            off = (40 + float(s * 30), 10 + float(s * -20))
+            pc = [(x + off[0], y + off[1], f) for x, y, f in pa]
+            msg = geom.contours_close(ref_outline(pc, [3]), hb.outline(3), 0.02)
+            if msg:
+                rec.violation("gvar:harfbuzz:composite:" + cls, "glyph C at %r: %s" % (loc, msg))
+                break
+            if s != 0:
+                rec.witness("composite offset delta")
+            if 0 < s < 1:
+                rec.witness("intermediate region scalar strictly between 0 and 1")
+        if any(None in c[:4] and any(x is not None for x in c[:4]) for _r, c in tA):
+            rec.witness("inferred deltas (IUP)")
+
+
+# ---------------------------------------------------------------------------------------------
+# fvar / avar
+FX_MAX = 0x7FFFFFFF / 65536
+FVAR_AXES = (
+    [("wght", 100.0, 400.0, 900.0, 0, 256)],
+    [("wght", 100.0, 400.0, 900.0, 0, 256), ("wdth", 50.0, 100.0, 200.0, 1, 65535)],
+    [("opsz", -32768.0, 0.0, FX_MAX, 0, 257), ("XTRA", 0.5, 0.5, 0.5, 1, 300)],
+    [("wght", 1.0, 1.0 + 1 / 65536, 2.0, 0, 256), ("ital", 0.0, 0.0, 1.0, 0, 258), ("slnt", -90.0, 0.0, 90.0, 0, 259)],
+)
+FVAR_INSTANCES = ("none", "plain", "psnames-mixed", "psnames-all")
+AVAR_KNOTS = (-0.5, -0.25, 0.25, 0.5, 0.75)
+AVAR_RULES = ("identity", "square", "shift")
+
+
+def avar_map(bits, rule):
+    m = {-1.0: -1.0, 0.0: 0.0, 1.0: 1.0}
+    for i, k in enumerate(AVAR_KNOTS):
+        if bits >> i & 1:
+            if rule == "identity":
+                v = k
+            elif rule == "square":
+                v = k * abs(k)
+            else:
+                v = k + (0.125 if k > 0 else -0.125)
+            m[k] = v
+    return m
+
+
+def piecewise(m, x):
+    ks = sorted(m)
+    if x <= ks[0]:
+        return Fraction(m[ks[0]])
+    for a, b in zip(ks, ks[1:]):
+        if a <= x <= b:
+            fa, fb = Fraction(m[a]), Fraction(m[b])
+            return fa + (Fraction(x) - Fraction(a)) * (fb - fa) / (Fraction(b) - Fraction(a))
+    return Fraction(m[ks[-1]])
+
+
+class FvarAvarUnit(Unit):
+    name = "fvar-avar"
+    rule = ("fvar: 4 axis lists (1..3 axes, 16.16 limits -32768 / 32767.99998 / 1+2^-16, hidden flag, name ids up to 65535) x named "
+            "instances {none, plain, PostScript name ids on some, on all}; avar: every subset of knots {-0.5,-0.25,0.25,0.5,0.75} "
+            "added to the required three x value rule {identity, square, shift} on the first axis; oracle: decompiled axes / "
+            "instances / segment maps == input, struct reader reads the same 16.16 / 2.14 numbers at the spec offsets (instance "
+            "size 4+4n or 6+4n), HarfBuzz reports the same axis records and maps user values through avar to the piecewise-linear "
+            "result; distinct = each (fvar, avar)")
+    required_witnesses = ("instance with postscriptNameID", "instances without postscriptNameID", "mixed postscriptNameID", "avar extra knots", "avar required knots only",
+                          "axis limit -32768", "hidden axis")
+    chunk = 40
+
+    def setup(self, tier, seed):
+        base_tables()
+
+    def cases(self, tier, seed):
+        for ai in range(len(FVAR_AXES)):
+            for ii in range(len(FVAR_INSTANCES)):
+                for bits in range(32):
+                    for rule in AVAR_RULES:
+                        if bits == 0 and rule != "identity":
+                            continue
+                        if tier == "quick" and ai > 1 and bits not in (0, 5, 31):
+                            continue
+                        yield [ai, ii, bits, rule]
+
+    def check(self, case, rec):
+        from fontTools.ttLib.tables._f_v_a_r import Axis, NamedInstance
+
+        ai, ii, bits, rule = case
+        axes = FVAR_AXES[ai]
+        rec.nontrivial()
+        fvar = newTable("fvar")
+        for tag, mn, df, mx, fl, nid in axes:
+            a = Axis()
+            a.axisTag, a.minValue, a.defaultValue, a.maxValue, a.flags, a.axisNameID = tag, mn, df, mx, fl, nid
+            fvar.axes.append(a)
+            if mn == -32768.0:
+                rec.witness("axis limit -32768")
+            if fl & 1:
+                rec.witness("hidden axis")
+        insts = []
+        kind = FVAR_INSTANCES[ii]
+        if kind != "none":
+            for k in range(3):
+                co = {t[0]: (t[1], t[2], t[3])[k % 3] for t in axes}
+                ps = 0xFFFF
+                if kind == "psnames-all" or (kind == "psnames-mixed" and k == 1):
+                    ps = 300 + k
+                insts.append((260 + k, k % 2, co, ps))
+        for sub, fl, co, ps in insts:
+            ni = NamedInstance()
+            ni.subfamilyNameID, ni.flags, ni.coordinates, ni.postscriptNameID = sub, fl, dict(co), ps
+            fvar.instances.append(ni)
+        font = TTFont()
+        font["fvar"] = fvar
+        data = fvar.compile(font)
+        f2 = newTable("fvar")
+        f2.decompile(data, font)
+        got_axes = [(a.axisTag, a.minValue, a.defaultValue, a.maxValue, a.flags, a.axisNameID) for a in f2.axes]
+        if got_axes != list(axes):
+            rec.violation("fvar:decompile:axes", "axes %r, expected %r" % (got_axes, axes))
+        got_inst = [(i.subfamilyNameID, i.flags, i.coordinates, i.postscriptNameID) for i in f2.instances]
+        if got_inst != insts:
+            rec.violation("fvar:decompile:instances:" + kind, "instances %r, expected %r" % (got_inst, insts))
+        fx = lambda v: int(round(v * 65536))
+        try:
+            raxes, rinst = R.fvar(data)
+        except R.ReadError as e:
+            rec.violation("fvar:reader:" + kind, "independent reader: %s" % e)
+            return
+        if raxes != [(t, fx(mn), fx(df), fx(mx), fl, nid) for t, mn, df, mx, fl, nid in axes]:
+            rec.violation("fvar:reader:axes", "axes %r" % (raxes,))
+        anyps = any(ps != 0xFFFF for _s, _f, _c, ps in insts)
+        want_inst = [(sub, fl, [fx(co[t[0]]) for t in axes], ps if anyps else None) for sub, fl, co, ps in insts]
+        if rinst != want_inst:
+            rec.violation("fvar:reader:instances:" + kind, "instances %r, expected %r" % (rinst, want_inst))
+        if insts:
+            rec.witness("instance with postscriptNameID" if all(ps != 0xFFFF for *_x, ps in insts) else "mixed postscriptNameID" if anyps else "instances without postscriptNameID")
+        # avar
+        segs = {axes[0][0]: avar_map(bits, rule)}
+        for t in axes[1:]:
+            segs[t[0]] = {-1.0: -1.0, 0.0: 0.0, 1.0: 1.0}
+        avar = newTable("avar")
+        avar.segments = {k: dict(reversed(list(v.items()))) for k, v in segs.items()}
+        adata = avar.compile(font)
+        a2 = newTable("avar")
+        a2.decompile(adata, font)
+        if a2.segments != segs:
+            rec.violation("avar:decompile:" + rule, "segments %r, expected %r" % (a2.segments, segs))
+        try:
+            rmaps = R.avar1(adata)
+        except R.ReadError as e:
+            rec.violation("avar:reader:" + rule, "independent reader: %s" % e)
+            return
+        want_maps = [sorted((f214(k), f214(v)) for k, v in segs[t[0]].items()) for t in axes]
+        if rmaps != want_maps:
+            rec.violation("avar:reader:" + rule, "segment maps %r, expected %r" % (rmaps, want_maps))
+        rec.witness("avar extra knots" if bits else "avar required knots only")
+        # HarfBuzz
+        base = dict(base_tables())
+        base["fvar"] = data
+        base["avar"] = adata
+        hb = hbridge.HBFont(R.sfnt_build(base))
+        infos = [(i.tag, i.min_value, i.default_value, i.max_value, int(i.flags) & 1, i.name_id) for i in hb.face.axis_infos]
+        f32 = lambda v: struct.unpack("f", struct.pack("f", v))[0]  # HarfBuzz reports floats
+        want_infos = [(t, f32(mn), f32(df), f32(mx), fl & 1, nid) for t, mn, df, mx, fl, nid in axes]
+        if infos != want_infos:
+            rec.violation("fvar:harfbuzz:axes", "HarfBuzz axis records %r, expected %r" % (infos, want_infos))
+            return
+        tag, mn, df, mx = axes[0][:4]
+        if mn < df < mx and ai < 2:
+            for n0 in (-1.0, -0.75, -0.5, -0.375, -0.25, 0.0, 0.125, 0.25, 0.5, 0.625, 0.75, 1.0):
+                user = df + n0 * (mx - df) if n0 >= 0 else df + n0 * (df - mn)
+                hb.font.set_variations({tag: user})
+                got = hb.font.get_var_coords_normalized()[0]
+                want = piecewise(segs[tag], n0)
+                if abs(round(got * 16384) - want * 16384) > 1:
+                    rec.violation("avar:harfbuzz:" + rule, "HarfBuzz maps normalized %r to %r, the segment map gives %r" % (n0, got, float(want)))
+                    break
+
+
+# =============================================================================================
+# COLR v1: buildCOLR <-> unbuildColrV1
+# =============================================================================================
+from fontTools.colorLib.builder import buildCOLR
+from fontTools.colorLib.unbuilder import unbuildColrV1
+
+COLR_ORDER = [".notdef", "a", "b", "c", "d", "e"]
+P_F214 = (0.0, 0.5, 1.0, -1.0, -2.0, 32767 / 16384, 0.25)
+P_ANGLE = (0.0, 45.0, -90.0, 180.0, -360.0, 32767 / 16384 * 180, 22.5)
+P_SWEEP = (0.0, 45.0, 360.0, -180.0, (32767 / 16384 + 1) * 180, 180.0, 22.5)  # stored as angle/180 - 1
+P_FWORD = (0, 1, -1, 32767, -32768, 100, -300)
+P_UFWORD = (0, 1, 65535, 500)
+P_FIXED = (0.0, 1.0, -1.0, 0.5, -32768.0, 32767 + 65535 / 65536, 1 / 65536)
+P_PAL = (0, 1, 0xFFFF, 2)
+P_VARIDX = (0, 0xFFFFFFFF, 70000)
+P_EXTEND = ("pad", "repeat", "reflect")
+P_MODES = (("clear", 0), ("src_over", 3), ("multiply", 23), ("hsl_luminosity", 27), ("xor", 11), ("plus", 12))
+UNARY = {
+    10: ("Glyph",), 12: ("Transform",), 14: ("dx", "dy"), 16: ("scaleX", "scaleY"), 18: ("scaleX", "scaleY", "centerX", "centerY"),
+    20: ("scale",), 22: ("scale", "centerX", "centerY"), 24: ("angle",), 26: ("angle", "centerX", "centerY"),
+    28: ("xSkewAngle", "ySkewAngle"), 30: ("xSkewAngle", "ySkewAngle", "centerX", "centerY"),
+}
+UNARY_KINDS = [(f, 0) for f in sorted(UNARY)] + [(f, 1) for f in sorted(UNARY) if f != 10]
+LEAF_KINDS = [(2, 0), (4, 0), (6, 0), (8, 0), (11, 0), (2, 1), (4, 1), (6, 1), (8, 1)]
+
+
+class _Salt:
+    def __init__(self, n):
+        self.n = n
+
+    def pick(self, pool):
+        self.n += 1
+        return pool[self.n % len(pool)]
+
+
+def colr_field(name, salt):
+    if name in ("scaleX", "scaleY", "scale", "Alpha", "StopOffset"):
+        return salt.pick(P_F214)
+    if name in ("startAngle", "endAngle"):
+        return salt.pick(P_SWEEP)
+    if name in ("angle", "xSkewAngle", "ySkewAngle"):
+        return salt.pick(P_ANGLE)
+    if name in ("r0", "r1"):
+        return salt.pick(P_UFWORD)
+    return salt.pick(P_FWORD)
+
+
+def colr_colorline(salt, var):
+    stops = []
+    for _ in range(1 + salt.pick((0, 1, 2))):
+        st = {"StopOffset": colr_field("StopOffset", salt), "PaletteIndex": salt.pick(P_PAL), "Alpha": colr_field("Alpha", salt)}
+        if var:
+            st["VarIndexBase"] = salt.pick(P_VARIDX)
+        stops.append(st)
+    return {"Extend": salt.pick(P_EXTEND), "ColorStop": stops}
+
+
+def colr_build(spec, salt):
+    """spec -> paint dict in the vocabulary of colorLib (glyph names, enum names)."""
+    kind = spec[0]
+    if kind == "L":
+        fmt, var = LEAF_KINDS[spec[1]]
+        p = {"Format": fmt + var}
+        if fmt == 2:
+            p.update(PaletteIndex=salt.pick(P_PAL), Alpha=colr_field("Alpha", salt))
+        elif fmt == 11:
+            p.update(Glyph=salt.pick(("b", "c", "e")))
+        else:
+            p["ColorLine"] = colr_colorline(salt, var)
+            names = {4: ("x0", "y0", "x1", "y1", "x2", "y2"), 6: ("x0", "y0", "r0", "x1", "y1", "r1"), 8: ("centerX", "centerY", "startAngle", "endAngle")}[fmt]
+            for nme in names:
+                p[nme] = colr_field(nme, salt)
+        if var:
+            p["VarIndexBase"] = salt.pick(P_VARIDX)
+        return p
+    if kind == "U":
+        fmt, var = UNARY_KINDS[spec[1]]
+        p = {"Format": fmt + var}
+        for nme in UNARY[fmt]:
+            if nme == "Glyph":
+                p[nme] = salt.pick(("b", "c", "d"))
+            elif nme == "Transform":
+                p[nme] = {k: salt.pick(P_FIXED) for k in ("xx", "yx", "xy", "yy", "dx", "dy")}
+                if var:
+                    p[nme]["VarIndexBase"] = salt.pick(P_VARIDX)
+            else:
+                p[nme] = colr_field(nme, salt)
+        if var and fmt != 12:
+            p["VarIndexBase"] = salt.pick(P_VARIDX)
+        p["Paint"] = colr_build(spec[2], salt)
+        return p
+    if kind == "C":
+        return {"Format": 32, "SourcePaint": colr_build(spec[2], salt), "CompositeMode": P_MODES[spec[1]][0], "BackdropPaint": colr_build(spec[3], salt)}
+    if kind == "Y":
+        return {"Format": 1, "Layers": [colr_build(c, salt) for c in spec[1]]}
+    if kind == "M":
+        return {"Format": 1, "Layers": [{"Format": 10, "Glyph": "bcde"[i % 4], "Paint": {"Format": 2, "PaletteIndex": i % 7, "Alpha": 1.0}} for i in range(spec[1])]}
+    raise KeyError(kind)
+
+
+def colr_normal(p, gid=None):
+    """Documented normalisation: nested PaintColrLayers are flattened, a single layer stands for
+    itself.  With gid (name -> id) the result is in the struct reader's vocabulary."""
+    if not isinstance(p, dict):
+        return p
+    out = {}
+    for k, v in p.items():
+        if k == "Layers":
+            flat = []
+            for c in v:
+                c = colr_normal(c, gid)
+                if c.get("Format") == 1:
+                    flat.extend(c["Layers"])
+                else:
+                    flat.append(c)
+            out[k] = flat
+        elif k == "ColorStop":
+            out[k] = [dict(st) for st in v]
+        elif isinstance(v, dict):
+            out[k] = colr_normal(v, gid)
+        elif k == "Glyph" and gid is not None:
+            out[k] = gid[v] if isinstance(v, str) else v
+        elif k == "CompositeMode" and gid is not None:
+            out[k] = dict(P_MODES)[v] if isinstance(v, str) else v
+        else:
+            out[k] = v
+    if out.get("Format") == 1 and len(out["Layers"]) == 1:
+        return out["Layers"][0]
+    return out
+
+
+def colr_specs(depth):
+    """All paint tree shapes of depth <= `depth` in simplest-first order (nested lists)."""
+    levels = [[["L", k] for k in range(len(LEAF_KINDS))]]
+    for d in range(1, depth + 1):
+        prev = levels[d - 1]
+        below = [t for lv in levels[:d - 1] for t in lv]
+        cur = []
+        for k in range(len(UNARY_KINDS)):
+            for t in prev:
+                cur.append(["U", k, t])
+        reps_prev = prev[:: max(1, len(prev) // 6)][:6]
+        reps_all = (below[:3] if below else []) + reps_prev
+        for mi in range(len(P_MODES)):
+            for a in reps_prev:
+                for b in reps_all:
+                    if (mi + len(cur)) % 3 == 0 or d == 1:
+                        cur.append(["C", mi, a, b])
+                        cur.append(["C", mi, b, a])
+        for a in reps_prev:
+            for b in reps_all:
+                cur.append(["Y", [a, b]])
+                cur.append(["Y", [b, a, a]])
+        levels.append(cur)
+    for lv in levels:
+        for t in lv:
+            yield t
+
+
+class ColrUnit(Unit):
+    name = "COLR"
+    rule = ("COLR v1 paint trees of depth <=2 (quick) / <=3 (thorough) from the paint grammar: leaves = Solid, Linear/Radial/Sweep "
+            "gradient (1..3 stops, 3 extend modes), ColrGlyph and their Var forms; unary = Glyph, Transform, Translate, Scale*, "
+            "Rotate*, Skew* (all 11 + Var forms) over every smaller tree; Composite (6 modes) and ColrLayers (2 and 3 layers, "
+            "nested) over representative subtrees; 300-layer list; numeric fields cycle through F2Dot14 / Fixed / FWORD / UFWORD / "
+            "angle limits; with/without clip boxes, a second base glyph sharing layers, layer reuse on/off; oracle: "
+            "unbuildColrV1(decompile(compile(buildCOLR(tree)))) == tree after the documented flattening, struct reader of the COLR "
+            "v1 binary decodes the same tree and clip boxes; distinct = each (tree, options)")
+    required_witnesses = ("PaintColrLayers", "nested layers flattened", "PaintComposite", "Var paint", "gradient", "PaintTransform", "clip box", "clip box with varIndexBase",
+                          "more than 255 layers", "two base glyphs")
+    chunk = 50
+
+    def cases(self, tier, seed):
+        depth = 2 if tier == "quick" else 3
+        for i, spec in enumerate(colr_specs(depth)):
+            yield [spec, i % 4, i]
+        for n in (255, 256, 300):
+            yield [["M", n], 0, n]
+            yield [["M", n], 3, n]
+
+    def check(self, case, rec):
+        spec, variant, idx = case
+        font = _order_font(COLR_ORDER)
+        gid = {n: i for i, n in enumerate(COLR_ORDER)}
+        tree = colr_build(spec, _Salt(idx))
+        glyphs = {"a": tree}
+        if variant in (1, 3):
+            # a second base glyph whose layers repeat part of the first: exercises layer reuse
+            shared = tree["Layers"][:2] if tree.get("Format") == 1 else [tree, {"Format": 10, "Glyph": "b", "Paint": {"Format": 2, "PaletteIndex": 3, "Alpha": 0.5}}]
+            glyphs["d"] = {"Format": 1, "Layers": list(shared) + [{"Format": 11, "Glyph": "e"}]}
+            rec.witness("two base glyphs")
+        clips = None
+        if variant == 2:
+            clips = {"a": (-32768, -1, 32767, 100)}
+        elif variant == 3:
+            clips = {"a": (0, 0, 10, 10, 70000), "d": (1, 2, 3, 4)}
+        rec.nontrivial()
+        self.witness_tree(spec, rec)
+        cls = colr_class(spec)
+        colr = buildCOLR(glyphs, version=1, glyphMap=gid, clipBoxes=clips, allowLayerReuse=variant != 2)
+        data = colr.compile(font)
+        c2 = newTable("COLR")
+        c2.decompile(data, font)
+        got = unbuildColrV1(c2.table.LayerList, c2.table.BaseGlyphList)
+        want = {k: colr_normal(v) for k, v in glyphs.items()}
+        if got != want:
+            rec.violation("COLR:roundtrip:" + cls, "unbuildColrV1 differs: %s" % tree_diff(want, got), expected=want, observed=got)
+        gotclips = {}
+        if c2.table.ClipList is not None:
+            for nme, box in c2.table.ClipList.clips.items():
+                t = (box.xMin, box.yMin, box.xMax, box.yMax)
+                gotclips[nme] = t + ((box.VarIndexBase,) if box.Format == 2 else ())
+        if gotclips != (clips or {}):
+            rec.violation("COLR:clipboxes", "clip boxes %r, expected %r" % (gotclips, clips))
+        try:
+            rd, rclips, v0 = R.colr_v1(data)
+        except R.ReadError as e:
+            rec.violation("COLR:reader:" + cls, "independent reader: %s" % e)
+            return
+        rwant = {gid[k]: colr_normal(v, gid) for k, v in glyphs.items()}
+        rgot = {k: colr_normal(v) for k, v in rd.items()}
+        if rgot != rwant:
+            rec.violation("COLR:reader:" + cls, "struct reader decodes another tree: %s" % tree_diff(rwant, rgot), expected=rwant, observed=rgot)
+        if rclips != {gid[k]: tuple(v) for k, v in (clips or {}).items()}:
+            rec.violation("COLR:reader:clipboxes", "clip boxes %r, expected %r" % (rclips, clips))
+        if v0:
+            rec.violation("COLR:reader:v0-records", "unexpected v0 base glyph records %r" % (v0,))
+        if clips:
+            rec.witness("clip box")
+            if any(len(v) == 5 for v in clips.values()):
+                rec.witness("clip box with varIndexBase")
+
+    def witness_tree(self, spec, rec):
+        k = spec[0]
+        if k == "M":
+            rec.witness("PaintColrLayers")
+            if spec[1] > 255:
+                rec.witness("more than 255 layers")
+            return
+        if k == "Y":
+            rec.witness("PaintColrLayers")
+            for c in spec[1]:
+                if c[0] == "Y":
+                    rec.witness("nested layers flattened")
+                self.witness_tree(c, rec)
+        elif k == "C":
+            rec.witness("PaintComposite")
+            self.witness_tree(spec[2], rec)
+            self.witness_tree(spec[3], rec)
+        elif k == "U":
+            fmt, var = UNARY_KINDS[spec[1]]
+            if var:
+                rec.witness("Var paint")
+            if fmt == 12:
+                rec.witness("PaintTransform")
+            self.witness_tree(spec[2], rec)
+        else:
+            fmt, var = LEAF_KINDS[spec[1]]
+            if var:
+                rec.witness("Var paint")
+            if fmt in (4, 6, 8):
+                rec.witness("gradient")
+
+
+def colr_class(spec):
+    k = spec[0]
+    if k == "L":
+        return "format%d" % sum(LEAF_KINDS[spec[1]])
+    if k == "U":
+        return "format%d" % sum(UNARY_KINDS[spec[1]])
+    return {"C": "composite", "Y": "layers", "M": "many-layers"}[k]
+
+
+def tree_diff(a, b, path=""):
+    if type(a) != type(b) and not (isinstance(a, (int, float)) and isinstance(b, (int, float))):
+        return "%s: %r vs %r" % (path, a, b)
+    if isinstance(a, dict):
+        for k in sorted(set(a) | set(b), key=str):
+            if k not in a or k not in b:
+                return "%s/%s: present on one side only" % (path, k)
+            d = tree_diff(a[k], b[k], "%s/%s" % (path, k))
+            if d:
+                return d
+        return ""
+    if isinstance(a, list):
+        if len(a) != len(b):
+            return "%s: %d vs %d items" % (path, len(a), len(b))
+        for i, (x, y) in enumerate(zip(a, b)):
+            d = tree_diff(x, y, "%s[%d]" % (path, i))
+            if d:
+                return d
+        return ""
+    return "" if a == b else "%s: %r vs %r" % (path, a, b)
+
+
 def units():
-    return [CmapUnit(), Cmap14Unit(), MetricsUnit(), GlyfSimpleUnit(), GlyfCompositeUnit(), LocaUnit()]
+    return [CmapUnit(), Cmap14Unit(), MetricsUnit(), GlyfSimpleUnit(), GlyfCompositeUnit(), LocaUnit(), NameUnit(), KernUnit(), PostUnit(), OS2Unit(), OtlUnit(), TupleStoreUnit(), GvarFontUnit(), FvarAvarUnit(), ColrUnit()]
